@@ -232,14 +232,15 @@ def model_exe(name):
     return os.path.join(WORK, "model_" + name, "_build", "default", "main.exe")
 
 
-def build_drv(name):
+def build_drv(name, race=False):
     h = os.path.join(VERIF, "harness")
     shutil.copyfile(os.path.join(REPO, "go.sum"), os.path.join(h, "go.sum"))
     write_if_changed(os.path.join(h, "go.mod"),
                      "module verifharness\n\ngo 1.24.0\n\nrequire github.com/jech/galene v0.0.0\n\n"
                      "replace github.com/jech/galene => %s\n" % REPO)
-    rc, out = sh(["go", "build", "-tags", "verif", "-o", os.path.join(WORK, "drv_" + name), "./cmd/" + name],
-                 cwd=h, env=goenv(), timeout=1800)
+    cmd = ["go", "build", "-tags", "verif"] + (["-race"] if race else []) + \
+        ["-o", os.path.join(WORK, "drv_" + name), "./cmd/" + name]
+    rc, out = sh(cmd, cwd=h, env=goenv(), timeout=1800)
     return rc == 0, out
 
 
@@ -283,8 +284,11 @@ def run_driver(prop, d, tier, seed, budget=None):
     n = budget if budget is not None else d.get(tier, d.get("quick", 100))
     trace = os.path.join(WORK, "%s.%s.trace" % (prop, name))
     t0 = time.time()
+    env = goenv()
+    if d.get("race"):
+        env["GORACE"] = "halt_on_error=1 exitcode=66"
     rc, out = sh([os.path.join(WORK, "drv_" + name), "-seed", str(seed), "-n", str(n), "-out", trace],
-                 timeout=d.get("timeout", 3000), env=goenv())
+                 timeout=d.get("timeout", 3000), env=env)
     res = {"driver": name, "n": n, "seed": seed, "trace": trace, "rc": rc, "out": out[-2000:],
            "failures": [], "divergences": [], "summary": {}, "wall_s": 0}
     if rc != 0:
@@ -298,6 +302,7 @@ def run_driver(prop, d, tier, seed, budget=None):
             if f["property"] == prop:
                 res["failures"].append(f)
     # model run + comparison
+    compare.last_compared = 0
     if d.get("model", True):
         mout = trace + ".model"
         with open(mout, "w") as fo:
@@ -406,7 +411,7 @@ def check_property(prop, tier, seed):
     drv_broken = None
     model_broken = None
     for d in cfg["drivers"]:
-        ok, out = build_drv(d["name"])
+        ok, out = build_drv(d["name"], d.get("race", False))
         if not ok:
             drv_broken = "the correspondence driver %s no longer builds against /repo: %s" % (d["name"], out[-1500:])
         if d.get("model", True):
@@ -551,7 +556,7 @@ def replay(prop, path):
     rp = json.load(open(path))
     ensure_dirs()
     for d in cfg["drivers"]:
-        ok, out = build_drv(d["name"])
+        ok, out = build_drv(d["name"], d.get("race", False))
         if not ok:
             log("harness does not build"); return 1
         if d.get("model", True):
@@ -605,7 +610,7 @@ def setup():
         for d in cfg["drivers"]:
             if d["name"] not in done:
                 done.add(d["name"])
-                ok, out = build_drv(d["name"])
+                ok, out = build_drv(d["name"], d.get("race", False))
                 if not ok:
                     log("driver %s failed to build" % d["name"]); bad += 1
             mn = d.get("model_name", d["name"])
